@@ -15,7 +15,7 @@ CASES = [
     dict(name="set-pos-compares-after-store", file=FB, expect="R07.1",
          old="        old_pos = copy(self.pos)\n        # save pos and mesh-type\n        self.mesh_type = mesh_type\n        self.pos = pos\n",
          new="        # save pos and mesh-type\n        self.mesh_type = mesh_type\n        self.pos = pos\n        old_pos = copy(self.pos)\n"),
-    dict(name="reuse-ignores-deleted", file=CS, expect="R07.2", old="            not info[\"deleted\"]\n            and name[2] in self.field_names", new="            name[2] in self.field_names"),
+    dict(name="reuse-ignores-deleted", file=CS, expect="R07.2", old="            not info[\"deleted\"]\n            and kwargs.get(\"ext_drift\") is None", new="            kwargs.get(\"ext_drift\") is None"),
     dict(name="reuse-one-name-only", file=CS, expect="R07.2",
          old="            and name[2] in self.field_names\n            and krige_name[1] in self.krige.field_names", new="            and name[2] in self.field_names"),
     dict(name="reuse-wrong-name", file=CS, expect="R07.2", old="            rawkrige, krige_var = self[name[2]], self.krige[krige_name[1]]", new="            rawkrige, krige_var = self[name[1]], self.krige[krige_name[1]]"),
@@ -35,4 +35,5 @@ CASES = [
     dict(name="provenance-never-updated", file="field/cond_srf.py", expect="R07.8", old="            self._krige_var_ref = krige_var\n", new="            self._krige_var_ref = None\n"),
     dict(name="provenance-updated-on-reuse-too", file="field/cond_srf.py", expect="R07.8",
          old="            self.post_field(rawkrige, name[2], False, save[2])\n            self._krige_var_ref = krige_var\n", new="            self.post_field(rawkrige, name[2], False, save[2])\n        self._krige_var_ref = krige_var\n"),
+    dict(name="revert-ext-drift-blocks-reuse", file="field/cond_srf.py", expect="R07.9", old='            and kwargs.get("ext_drift") is None\n', new=""),
 ]
